@@ -270,6 +270,10 @@ fn run(ctx: &mut Ctx) {
     exhaustive_short(ctx, if ctx.quick() { 5 } else { 6 });
     let n = ctx.n(1500, 40_000);
     ctx.run("xlsx", n, xlsx_case_strategy, oracle_xlsx);
+    let n = ctx.n(1500, 40_000);
+    ctx.run("xls", n, xls_case_strategy, oracle_xls);
+    let n = ctx.n(1500, 40_000);
+    ctx.run("xlsb", n, xlsb_case_strategy, oracle_xlsb);
     ctx.assumptions.push("grammar: bare letters other than the calendar tokens, AM/PM, A/P and General are not generated (Excel requires them quoted or escaped); `*x` fill is generated only with non-date x; calendar tokens mixed before an elapsed token are not judged; built-in ids 23-36 and >= 50 (locale dependent) are only required to agree between the two id tables".into());
 }
 
@@ -279,6 +283,166 @@ fn replay(sub: &str, case: &serde_json::Value) -> Option<Report> {
         "short" => replay_as::<Short>(case, oracle_short),
         "builtin" => replay_as::<BuiltinId>(case, oracle_builtin),
         "xlsx" => replay_as::<XlsxCase>(case, oracle_xlsx),
+        "xls" => replay_as::<XlsCase>(case, oracle_xls),
+        "xlsb" => replay_as::<XlsbCase>(case, oracle_xlsb),
         _ => None,
     }
+}
+
+// ---------------------------------------------------------------------------------------------
+// (d') xls and xlsb files
+
+use crate::enc::biff8 as b8;
+use crate::enc::xlsb as bb;
+
+#[derive(Debug, Clone, Serialize, Deserialize)]
+pub struct XlsCase {
+    pub doc: b8::XlsDoc,
+}
+
+#[derive(Debug, Clone, Serialize, Deserialize)]
+pub struct XlsbCase {
+    pub doc: bb::XlsbDoc,
+}
+
+/// (custom formats with distinct ids >= 164 in file order, xf -> ifmt)
+fn format_table() -> impl Strategy<Value = (Vec<(u16, String, u8)>, Vec<u16>)> {
+    styles_strategy().prop_map(|st| {
+        let fmts: Vec<(u16, String, u8)> = st.num_fmts.iter().map(|(id, code, class)| (*id as u16, code.clone(), *class)).filter(|f| f.1.encode_utf16().count() < 250).collect();
+        let xfs: Vec<u16> = st
+            .cell_xfs
+            .iter()
+            .map(|x| match x {
+                Some(id) if *id < 164 || fmts.iter().any(|f| f.0 == *id as u16) => *id as u16,
+                _ => 0,
+            })
+            .collect();
+        (fmts, xfs)
+    })
+}
+
+fn serial() -> impl Strategy<Value = f64> {
+    prop_oneof![
+        3 => (0u32..60000).prop_map(|d| d as f64),
+        2 => (0u32..6000000).prop_map(|d| d as f64 / 100.0),
+        2 => (0u32..60000, 0u32..86400).prop_map(|(d, s)| d as f64 + s as f64 / 86400.0),
+        1 => (0.0f64..60000.0).prop_map(|f| f64::from_bits(f.to_bits() & !0x3_FFFF_FFFF)),
+        1 => Just(0.5),
+        1 => Just(-3.0),
+    ]
+}
+
+fn xls_case_strategy() -> impl Strategy<Value = XlsCase> {
+    (format_table(), proptest::option::weighted(0.7, any::<bool>()), any::<bool>(), crate::props::c13::layout_strategy()).prop_flat_map(|((fmts, xfs), date1904, wide, cfb)| {
+        let n = xfs.len() as u16;
+        let cell = (serial(), any::<u8>(), 0..n, 0u8..6);
+        (Just((fmts, xfs)), Just(date1904), Just(wide), Just(cfb), proptest::collection::vec(cell, 1..14)).prop_map(|((fmts, xfs), date1904, wide, cfb, cells)| {
+            let mut out: Vec<b8::BCell> = vec![];
+            for (i, (v, enc, ixfe, form)) in cells.into_iter().enumerate() {
+                let encs = b8::rk_encodings(v);
+                let k = enc as usize % (encs.len() + 1);
+                let rec = match form {
+                    0 | 1 | 2 if k > 0 => b8::BRec::Rk(encs[k - 1].1),
+                    3 if k > 0 => b8::BRec::MulRk(vec![(ixfe, encs[k - 1].1), ((ixfe + 1) % xfs.len() as u16, encs[k - 1].1)]),
+                    4 => b8::BRec::Formula { value: b8::FVal::Num(v), rgce: vec![0x1E, 1, 0] },
+                    _ => b8::BRec::Number(v),
+                };
+                out.push(b8::BCell { row: i as u16, col: (i % 3) as u16, ixfe, rec });
+            }
+            XlsCase {
+                doc: b8::XlsDoc {
+                    sheets: vec![b8::BSheet { name: "D".into(), cells: out, dimensions: 1, ..Default::default() }],
+                    formats: fmts.into_iter().enumerate().map(|(i, (id, code, class))| (id, code, class, wide ^ (i % 2 == 0))).collect(),
+                    xfs,
+                    date1904,
+                    codepage: Some(1200),
+                    cfb,
+                    ..Default::default()
+                },
+            }
+        })
+    })
+}
+
+fn classes_xls(doc: &b8::XlsDoc) -> [bool; 3] {
+    let mut c = [false; 3];
+    for cell in &doc.sheets[0].cells {
+        match &cell.rec {
+            b8::BRec::MulRk(v) => {
+                for (x, _) in v {
+                    c[b8::xf_class(doc, *x) as usize] = true;
+                }
+            }
+            _ => c[b8::xf_class(doc, cell.ixfe) as usize] = true,
+        }
+    }
+    c
+}
+
+fn oracle_xls(case: &XlsCase) -> Report {
+    let mut rep = Report::new();
+    crate::props::c02::read_and_check(&case.doc, "xls", &mut rep);
+    let c = classes_xls(&case.doc);
+    for cell in &case.doc.sheets[0].cells {
+        rep.label(match &cell.rec {
+            b8::BRec::Rk(w) => ["xls:RK-float", "xls:RK-float/100", "xls:RK-int", "xls:RK-int/100"][(*w & 3) as usize],
+            b8::BRec::MulRk(_) => "xls:MULRK",
+            b8::BRec::Formula { .. } => "xls:FORMULA",
+            _ => "xls:NUMBER",
+        });
+    }
+    rep.label_if(c[1], "xls:date-styled-cell");
+    rep.label_if(c[2], "xls:elapsed-styled-cell");
+    rep.label_if(case.doc.date1904 == Some(true), "xls:1904");
+    rep.nontrivial = (c[1] || c[2]) && c[0] || case.doc.formats.len() >= 2;
+    rep
+}
+
+fn xlsb_case_strategy() -> impl Strategy<Value = XlsbCase> {
+    let fonts = proptest::collection::vec(prop_oneof![Just("Calibri".to_string()), Just("Arial".to_string()), Just("ӧӫ Sans".to_string()), Just("ＭＳ Ｐゴシック".to_string())], 0..3);
+    (format_table(), any::<bool>(), fonts, proptest::collection::vec(proptest::sample::select(vec![0u16, 14, 22]), 0..3)).prop_flat_map(|((fmts, xfs), date1904, fonts, style_xfs)| {
+        let n = xfs.len() as u32;
+        let cell = (serial(), any::<u8>(), 0..n, 0u8..4);
+        (Just((fmts, xfs)), Just(date1904), Just(fonts), Just(style_xfs), proptest::collection::vec(cell, 1..14)).prop_map(|((fmts, xfs), date1904, fonts, style_xfs, cells)| {
+            let rows = cells
+                .into_iter()
+                .enumerate()
+                .map(|(i, (v, enc, style, form))| {
+                    let encs = b8::rk_encodings(v);
+                    let k = enc as usize % (encs.len() + 1);
+                    let rec = match form {
+                        0 | 1 if k > 0 => bb::BbRec::Rk(encs[k - 1].1),
+                        2 => bb::BbRec::FmlaNum(v, vec![0x1E, 1, 0]),
+                        _ => bb::BbRec::Real(v),
+                    };
+                    bb::BbRow { r: i as u32, before: vec![], cells: vec![bb::BbCell { col: (i % 3) as u32, style, rec }] }
+                })
+                .collect();
+            XlsbCase { doc: bb::XlsbDoc { sheets: vec![bb::BbSheet { name: "D".into(), rows, ..Default::default() }], styles: Some(bb::BbStyles { fmts, fonts, style_xfs, xfs }), date1904, ..Default::default() } }
+        })
+    })
+}
+
+fn oracle_xlsb(case: &XlsbCase) -> Report {
+    let mut rep = Report::new();
+    crate::props::c03::read_and_check(&case.doc, "xlsb", &mut rep);
+    let mut c = [false; 3];
+    for r in &case.doc.sheets[0].rows {
+        for cell in &r.cells {
+            c[bb::xf_class(&case.doc, cell.style) as usize] = true;
+            rep.label(match &cell.rec {
+                bb::BbRec::Rk(w) => ["xlsb:RK-float", "xlsb:RK-float/100", "xlsb:RK-int", "xlsb:RK-int/100"][(*w & 3) as usize],
+                bb::BbRec::FmlaNum(..) => "xlsb:BrtFmlaNum",
+                _ => "xlsb:BrtCellReal",
+            });
+        }
+    }
+    let st = case.doc.styles.as_ref().unwrap();
+    rep.label_if(c[1], "xlsb:date-styled-cell");
+    rep.label_if(c[2], "xlsb:elapsed-styled-cell");
+    rep.label_if(case.doc.date1904, "xlsb:1904");
+    rep.label_if(!st.fonts.is_empty(), "xlsb:fonts-between-formats-and-xfs");
+    rep.label_if(st.fmts.is_empty(), "xlsb:no-custom-formats");
+    rep.nontrivial = (c[1] || c[2]) && c[0] || st.fmts.len() >= 2;
+    rep
 }
